@@ -132,6 +132,9 @@ type renderState struct {
 	*HTMLRenderer
 	dst      []byte
 	lowerBuf []byte
+	// rawState is the tag filter's scanner state.
+	// It carries over from one line of an HTML block or inline HTML tag to the next.
+	rawState int
 }
 
 func (r *renderState) openTagAttr(name atom.Atom) {
@@ -225,6 +228,7 @@ func (r *renderState) preBlock(source []byte, cursor *Cursor) bool {
 		if r.IgnoreRaw {
 			return false
 		}
+		r.rawState = 0
 	default:
 		return false
 	}
@@ -381,6 +385,7 @@ func (r *renderState) preInline(source []byte, inline *Inline) bool {
 		return false
 	case HTMLTagKind:
 		// Just descend into children.
+		r.rawState = 0
 	default:
 		return false
 	}
@@ -411,8 +416,11 @@ func (r *renderState) filterRaw(rawHTML []byte) {
 		copyState = iota
 		commentState
 		declState
+		tagState
 	)
-	state := copyState
+	// A comment, declaration or tag may continue from the previous line:
+	// an HTML tokenizer reads the lines as one stream.
+	state := r.rawState
 	copyStart := 0
 	for i := 0; i < len(rawHTML); {
 		switch state {
@@ -442,8 +450,10 @@ func (r *renderState) filterRaw(rawHTML []byte) {
 			case i+1 < len(rawHTML) && (isASCIILetter(rawHTML[i+1]) || rawHTML[i+1] == '/'):
 				tagNameStart := i + 1
 				tagEnd := len(rawHTML)
+				unterminated := true
 				if j := bytes.IndexByte(rawHTML[tagNameStart:], '>'); j >= 0 {
 					tagEnd = tagNameStart + j + len(">")
+					unterminated = false
 				}
 				tagNameEnd := tagNameStart + htmlTagNameEnd(rawHTML[tagNameStart:tagEnd])
 				tagName := maybeLower(rawHTML[tagNameStart:tagNameEnd], &r.lowerBuf)
@@ -456,6 +466,9 @@ func (r *renderState) filterRaw(rawHTML []byte) {
 					i = tagNameStart
 				} else {
 					i = tagEnd
+					if unterminated {
+						state = tagState
+					}
 				}
 			default:
 				// A '<' that does not start a tag is text.
@@ -472,7 +485,7 @@ func (r *renderState) filterRaw(rawHTML []byte) {
 			default:
 				i++
 			}
-		case declState:
+		case declState, tagState:
 			if rawHTML[i] == '>' {
 				state = copyState
 			}
@@ -482,6 +495,7 @@ func (r *renderState) filterRaw(rawHTML []byte) {
 		}
 	}
 
+	r.rawState = state
 	r.dst = append(r.dst, rawHTML[copyStart:]...)
 }
 
